@@ -107,10 +107,32 @@ def h_insert(ctx, cls, ninsert, maxdepth):
     ctx.check("each unknown (non-vendor) insertion is reported by an UnknownTagWarning", count_unknown(cats) == expected_warnings)
 
 
-HARNESSES = dict(insert=h_insert)
+def h_adjacent(ctx, cls):
+    """two insertions next to each other in the root aggregate: a vendor node directly followed by any kind of node"""
+    K = ofxgen.class_by_name(cls)
+    inst = doc_for(K)
+    clean = inst.to_etree()
+    want, _ = try_convert(copy.deepcopy(clean))
+    tree = copy.deepcopy(clean)
+    pos = ctx.choice("pos", list(range(len(tree) + 1)))
+    kind0 = ctx.choice("kind0", ["vendor_element", "vendor_aggregate"])
+    kind1 = ctx.choice("kind1", KINDS)
+    first = make_node(ctx, kind0, "0", K, tree)
+    second = make_node(ctx, kind1, "1", K, tree)
+    tree.insert(pos, first)
+    tree.insert(pos + 1, second)
+    got, cats = try_convert(tree)
+    ctx.check("a document with unknown / vendor tags inserted is not rejected", got is not None)
+    if got is None:
+        return
+    ctx.check("the converted model equals the conversion of the document without the insertions", same_model(ctx, got, want))
+    ctx.check("each unknown (non-vendor) insertion is reported by an UnknownTagWarning", count_unknown(cats) == (0 if kind1.startswith("vendor") else 1))
+
+
+HARNESSES = dict(insert=h_insert, adjacent=h_adjacent)
 
 META = dict(
-    bounds=dict(insertions="quick: 1 node at depth <= 1; thorough: 1 node at depth <= 2 for every class and 2 nodes at depth <= 1 for core classes (per-instance budget 6000 paths)",
+    bounds=dict(insertions="two adjacent nodes (vendor node + any kind) at every position of the root (quick: core classes; thorough: every class); quick: 1 node at depth <= 1; thorough: 1 node at depth <= 2 for every class and 2 nodes at depth <= 1 for core classes (per-instance budget 6000 paths)",
                 tags="unknown tag: 2 symbolic characters over A-Z 0-9 . _ differing from every child name; vendor tags INTU.BID, X.Y, A.B.C",
                 kinds=KINDS),
     models=["instrumented from_etree/_convert/update_args/groom (+ MFINFO/STOCKINFO/MAIL overrides)", "copy.deepcopy of element trees (native)",
@@ -127,7 +149,10 @@ def instances(tier, seed):
         if not full:
             out.append(dict(name=f"insert[{n}]", harness="insert", fn=h_insert, params=dict(cls=n, ninsert=1, maxdepth=1),
                             opts=dict(wall_s=120, max_paths=3000)))
+            if ofxgen.is_core(K):
+                out.append(dict(name=f"adjacent[{n}]", harness="adjacent", fn=h_adjacent, params=dict(cls=n), opts=dict(wall_s=120, max_paths=3000)))
         else:
+            out.append(dict(name=f"adjacent[{n}]", harness="adjacent", fn=h_adjacent, params=dict(cls=n), opts=dict(wall_s=240, max_paths=6000)))
             # every class: one insertion down to depth 2; core classes additionally two insertions at depth <= 1
             out.append(dict(name=f"insert[{n},1,depth2]", harness="insert", fn=h_insert, params=dict(cls=n, ninsert=1, maxdepth=2),
                             opts=dict(wall_s=300, max_paths=6000)))
